@@ -154,7 +154,10 @@ def view(tr):
     for e in tr["events"]:
         op = e["op"]
         g = e["g"]
-        ev = {"seq": e["seq"], "c": 0, "g": {"has": g["has"], "v": g["v"], "ign": g["ign"], "oneconst": g["oneconst"], "tok": g["tok"], "onetok": g["onetok"]}}
+        ev = {"seq": e["seq"], "c": 0, "hask3": False, "k3": [],
+              "g": {"has": g["has"], "v": g["v"], "ign": g["ign"], "oneconst": g["oneconst"], "tok": g["tok"], "onetok": g["onetok"], "lc": g["lc"]}}
+        if op == "call" and e.get("name") == "ensurelc" and e["out"] == "ok" and len(e["res"]) == 1:
+            ev["hask3"], ev["k3"] = True, e["res"][0]["lc"]
         if op in ("guarded_enter", "try_enter") and op == "guarded_enter":
             ev["ev"] = "marker"
         elif op == "try_enter":
@@ -180,7 +183,7 @@ def view(tr):
         else:
             ev["ev"] = "call"
         evs.append(ev)
-    return {"id": tr["id"], "events": evs, "expect": tr["meta"]["hist"]}
+    return {"id": tr["id"], "P": tr["cfg"]["P"], "events": evs, "expect": tr["meta"]["hist"]}
 
 
 def inductive(run):
